@@ -339,4 +339,130 @@ Hint Resolve ff_e_remove_sub_element : ff.
 Lemma ff_e_remove_sub_element_kind h name : ff (e_remove_sub_element_kind T h name).
 Proof. unfold e_remove_sub_element_kind. ff_tac. Qed.
 
+(* ---------- copy ---------- *)
+Lemma ff_register_subtree fuel : forall m cur i, ff (register_subtree T fuel m cur i).
+Proof. induction fuel as [|fuel IH]; intros m cur i; cbn [register_subtree]; ff_tac. Qed.
+Hint Resolve ff_register_subtree : ff.
+Lemma ff_make_unique_item_name i m pp : ff (make_unique_item_name T i m pp).
+Proof. unfold make_unique_item_name. ff_tac. Qed.
+Hint Resolve ff_make_unique_item_name : ff.
+
+(* deep_copy re-parents the copies it has just allocated: Frame holds for the whole call, and the result is fresh *)
+Definition dc_spec (fuel : nat) : Prop :=
+  forall src v w r w', Fresh w -> deep_copy T fuel src v w = Val (r, w') ->
+  Frame w w' /\ Fresh w' /\ (forall c, r = OK c -> c = w_next w).
+
+(* a step `re-parent a node that is new since w0` *)
+Lemma frame_reparent_new w0 w1 cs p r w2 :
+  Frame w0 w1 -> Fresh w1 -> w_nodes w0 cs = None ->
+  modify_node cs (fun x => set_parent x p) w1 = Val (r, w2) -> Frame w0 w2 /\ Fresh w2.
+Proof.
+  intros F R Hc H. apply modify_node_wset in H as (n & Hn & _ & ->). split.
+  - eapply frame_upd_new; eauto. cbn. eapply (fr_new _ _ F); eauto.
+  - eapply fresh_wset; eauto.
+Qed.
+
+Lemma ff_copy_child f s v p {B} (K : id -> W B) (KN : W B) :
+  dc_spec f -> (forall cs, ff (K cs)) -> ff KN ->
+  ff (wbind (wtry (deep_copy T f s v))
+        (fun r => match r with
+                  | Some cs => wbind (modify_node cs (fun x => set_parent x p)) (fun _ => K cs)
+                  | None => KN end)).
+Proof.
+  intros D HK HN w r w' F H.
+  apply wbind_inv in H as [(a & w1 & H1 & H2) | (e & H1 & _)].
+  - apply wtry_inv in H1 as (r0 & H1 & E). injection E as ->. destruct (D _ _ _ _ _ F H1) as (F1 & R1 & Hc).
+    destruct r0 as [cs|e].
+    + pose proof (Hc cs eq_refl) as ->.
+      apply wbind_inv in H2 as [(u & w2 & H2 & H3) | (e & H2 & _)].
+      * assert (w_nodes w (w_next w) = None) as Hnone by (apply F; lia).
+        destruct (frame_reparent_new _ _ _ _ _ _ F1 R1 Hnone H2) as (F2 & R2).
+        destruct (HK _ _ _ _ R2 H3) as (F3 & R3). split; auto. eapply Frame_trans; eauto.
+      * apply modify_node_wset in H2 as (? & _ & [=] & _).
+    + destruct (HN _ _ _ R1 H2) as (F2 & R2). split; auto. eapply Frame_trans; eauto.
+  - apply wtry_inv in H1 as (r0 & _ & [=]).
+Qed.
+
+Lemma dc_spec_all fuel : dc_spec fuel.
+Proof.
+  induction fuel as [|f IH]; intros src v w r w' F H; [discriminate|].
+  cbn [deep_copy] in H.
+  apply wbind_inv in H as [(n & w1 & H1 & H) | (e & H1 & _)];
+    [|apply get_node_inv in H1 as (? & _ & [=] & _)].
+  apply get_node_inv in H1 as (n' & Hn & [= <-] & ->).
+  apply wbind_inv in H as [(c & w1 & H1 & H) | (e & H1 & _)];
+    [|apply alloc_walloc in H1 as ([=] & _)].
+  apply alloc_walloc in H1 as ([= ->] & ->).
+  set (w1 := walloc w (mkNode PNone (n_name n) (n_type n) [] [] [] (n_comment n))) in *.
+  assert (Frame w w1 /\ Fresh w1) as (F1 & R1) by (split; [apply frame_walloc | apply fresh_walloc]; auto).
+  assert (ff (wbind (copy_attrs T (n_type n) v (n_attrs n) []) (fun attrs =>
+           wbind (modify_node (w_next w) (fun x => set_attrs x attrs)) (fun _ =>
+           wbind ((fix items (l : list citem) : W unit :=
+                     match l with
+                     | [] => wret tt
+                     | CData d :: rest =>
+                       wbind (modify_node (w_next w) (fun x => set_content x (n_content x ++ [CData d]))) (fun _ => items rest)
+                     | CElem s :: rest =>
+                       wbind (get_node s) (fun sn =>
+                       wbind (wl (find_sub_element T (n_type n) (n_name sn) v)) (fun fs =>
+                       match fs with
+                       | Some _ =>
+                         wbind (wtry (deep_copy T f s v)) (fun r =>
+                         match r with
+                         | Some cs =>
+                           wbind (modify_node cs (fun x => set_parent x (PElem (w_next w)))) (fun _ =>
+                           wbind (modify_node (w_next w) (fun x => set_content x (n_content x ++ [CElem cs]))) (fun _ =>
+                           items rest))
+                         | None => items rest
+                         end)
+                       | None => items rest
+                       end))
+                     end) (n_content n)) (fun _ => wret (w_next w)))))) as HF.
+  { apply ff_bind; [apply ff_ro; ro_tac|intros attrs].
+    apply ff_bind; [ff_tac|intros _].
+    apply ff_bind; [|intros _; ff_tac].
+    generalize (n_content n). intros l. induction l as [|[s|d] l IHl]; [ff_tac| |].
+    - apply ff_get_node. intros sn. apply ffat_ff. apply ff_bind; [ff_tac|intros fs].
+      destruct fs as [?|]; auto. apply ff_copy_child; auto. intros cs. apply ff_bind; [ff_tac|intros _; exact IHl].
+    - apply ff_bind; [ff_tac|intros _; exact IHl]. }
+  assert (forall c, r = OK c -> c = w_next w) as Hres.
+  { intros c0 ->. clear HF.
+    repeat (apply wbind_inv in H as [(? & ? & _ & H) | (? & _ & [=])]). apply wret_inv in H as (H & _). congruence. }
+  destruct (HF _ _ _ R1 H) as (F2 & R2). split; [eapply Frame_trans; eauto|]. split; auto.
+Qed.
+
+Lemma ff_deep_copy fuel src v : ff (deep_copy T fuel src v).
+Proof. intros w r w' F H. destruct (dc_spec_all fuel _ _ _ _ _ F H) as (A & B & _). auto. Qed.
+
+Lemma ff_create_copied_inner self other pos m version : ff (create_copied_sub_element_inner T self other pos m version).
+Proof.
+  unfold create_copied_sub_element_inner.
+  apply ff_get_node. intros n. apply ffat_ff.
+  apply ff_bind; [apply ff_ro; ro_tac|intros w0].
+  apply ff_bind; [apply ff_ro; ro_tac|intros anc]. destruct anc; [ff_tac|].
+  intros w r w' F H.
+  apply wbind_inv in H as [(c & w1 & H1 & H) | (e & H1 & _)]; [|eapply ff_deep_copy; eauto].
+  destruct (dc_spec_all _ _ _ _ _ _ F H1) as (F1 & R1 & Hc). pose proof (Hc c eq_refl) as ->.
+  apply wbind_inv in H as [(path & w2 & H2 & H) | (e & H2 & _)].
+  2:{ assert (w' = w1) by (refine ((_ : ro (path_unchecked T n)) _ _ _ H2); ro_tac). subst. auto. }
+  assert (w2 = w1) by (refine ((_ : ro (path_unchecked T n)) _ _ _ H2); ro_tac). subst w2.
+  apply wbind_inv in H as [(u & w2 & H3 & H) | (e & H3 & _)];
+    [|apply modify_node_wset in H3 as (? & _ & [=] & _)].
+  assert (w_nodes w (w_next w) = None) as Hnone by (apply F; lia).
+  destruct (frame_reparent_new _ _ _ _ _ _ F1 R1 Hnone H3) as (F2 & R2).
+  assert (ff (wbind (get_node (w_next w)) (fun cn =>
+           wbind (is_identifiable T cn) (fun ident =>
+           wbind (if ident then wbind (make_unique_item_name T (w_next w) m path) (fun _ => wret tt) else wret tt) (fun _ =>
+           wbind wget (fun w2 =>
+           wbind (register_subtree T (fuel_of w2) m path (w_next w)) (fun _ =>
+           wbind (content_insert self pos (CElem (w_next w))) (fun _ => wret (w_next w))))))))) as HF by ff_tac.
+  destruct (HF _ _ _ R2 H) as (F3 & R3). split; auto. eapply Frame_trans; eauto.
+Qed.
+Hint Resolve ff_create_copied_inner : ff.
+
+Lemma ff_e_create_copied h other : ff (e_create_copied_sub_element T LATEST h other).
+Proof. unfold e_create_copied_sub_element, raw_create_copied_sub_element. ff_tac. Qed.
+Lemma ff_e_create_copied_at h other pos : ff (e_create_copied_sub_element_at T LATEST h other pos).
+Proof. unfold e_create_copied_sub_element_at, raw_create_copied_sub_element_at. ff_tac. Qed.
+
 End Ops.
